@@ -1013,10 +1013,30 @@ impl StoryState {
         Ok(())
     }
 
+    /// Checks that every argument is of a type that can be passed to ink,
+    /// without changing any state.
+    pub fn validate_arguments(arguments: Option<&Vec<ValueType>>) -> Result<(), StoryError> {
+        if let Some(arguments) = arguments {
+            for arg in arguments {
+                if matches!(
+                    arg,
+                    ValueType::DivertTarget(_) | ValueType::VariablePointer(_)
+                ) {
+                    return Err(StoryError::InvalidStoryState("ink arguments when calling EvaluateFunction / ChoosePathStringWithParameters must be \
+                        int, float, string, bool or InkList.".to_owned()));
+                }
+            }
+        }
+
+        Ok(())
+    }
+
     pub fn pass_arguments_to_evaluation_stack(
         &mut self,
         arguments: Option<&Vec<ValueType>>,
     ) -> Result<(), StoryError> {
+        Self::validate_arguments(arguments)?;
+
         // Pass arguments onto the evaluation stack
         if let Some(arguments) = arguments {
             for arg in arguments {
